@@ -1,9 +1,31 @@
 """C07 - A departed client leaves no trace."""
+import random
 from ..framework import Check
-from .. import mgr_check
+from .. import mgr_check, mgr_common as C
 
 THEOREMS = ["C07_gone", "C07_lists_only_live", "C07_departed_not_recipient", "C07_rest_untouched", "C07_ex"]
 CHECKERS = ["C07", "C01", "C03"]
+
+
+def directed(rng: random.Random, tier: str):
+    """a departure discovered on the write side while a manager-originated message (CLIENT_CLOSED of another
+    client leaving in the same round) is being delivered, with a recipient still to be served"""
+    out = []
+    for lvl in (60, 40, 10):
+        for first in ("eof", "disconnect", "reset"):
+            hs = C.History(loglevel=lvl, tag="nested-departure")
+            for _ in range(4):
+                hs.round([], [], 0, accept=True)
+            hs.round([(1, hs.connect_v2(logger=1, mod_id=0))], [1, 2, 3, 4], 0)
+            hs.round([(1, hs.sub("sub", C.ALL))], [1, 2, 3, 4], 0)
+            hs.round([(2, hs.connect_v1(src_mod=20)), (3, hs.connect_v1(src_mod=21)), (4, hs.connect_v1(src_mod=22))], [1, 2, 3, 4], 0)
+            hs.round([(3, hs.sub("sub", C.MT["CLIENT_CLOSED"])), (4, hs.sub("sub", C.MT["CLIENT_CLOSED"]))], [1, 2, 3, 4], 0)
+            hs.fault(3, 0)
+            f = dict(eof=hs.eof, disconnect=hs.disconnect, reset=hs.reset)[first]()
+            hs.round([(2, f)], [1, 2, 3, 4], 1)
+            hs.round([(4, hs.publish(100, b"after"))], [1, 4], 2)
+            out.append(hs)
+    return out
 
 
 def run(chk: Check):
@@ -12,6 +34,7 @@ def run(chk: Check):
         model_profiles={"faults": 260, "ids": 80},
         oracle_flavors={"depart": 220, "drops": 220},
         checkers=CHECKERS,
+        extra_histories=directed,
         assumptions=[
             "'exactly one CLIENT_CLOSED' is decided by the spec oracle on the implementation (monitor stream) and by the "
             "model correspondence; the Coq theorems cover unregistration, non-recipiency and the frame property",
